@@ -204,6 +204,7 @@ def c04c(ck, prog):
         if ih is None or np_ is None:
             ck.ob(R, "arity%d:items" % k, False, "", "impl for %s lacks into_handler/n_params" % im["self_ty"])
             continue
+        ih = prog.inlined(ih, 1, r"middleware::Fangs::build$")     # a shared wrapper may hold the build
         b = ih.calls_to(r"middleware::Fangs::build$")
         ok = len(b) == 1
         if ok:
@@ -330,14 +331,24 @@ def c04f(ck, prog):
     R = "C04-f MUSTPASS mount fangs"
     NODE = r"^ohkami::router::base::Node$"
     mn, mh = prog.method(NODE, "merge_node"), prog.method(NODE, "merge_here")
-    via = [c for c in mn.calls() if c.callee in (mn.key, mh.key)]
+    mn_key = mn.key
+    # the descent into the child may go through a higher-order helper of Node (`descend_into_child(pattern, |child| ..)`):
+    # splice it in and resolve the call of the closure it is handed
+    from .lib import inline as _inline
+    hof = lambda caller, callee: (callee.crate == caller.crate and re.search(NODE, callee.self_ty or "") is not None and callee.key not in (mn_key, mh.key)
+                                  and bool([c for c in callee.calls() if re.search(r"ops::function::(FnOnce::call_once|FnMut::call_mut|Fn::call)$", c.decl or "")]))
+    mnv = _inline.inline(prog, mn, 1, hof)
+    if mnv is not mn:
+        mn = _inline.inline_closure_calls(prog, mnv)
+    via = [c for c in mn.calls() if c.callee in (mn_key, mh.key)]
     n = 0
     for bb, kind, payload in paths.ret_sites(mn):
         if kind == "residual":
             continue
         n += 1
         if kind == "call":
-            ok = payload.callee in (mn.key, mh.key)
+            # (a later tail call is fine once merge_here / merge_node has run on this path: its failure was propagated by `?`)
+            ok = payload.callee in (mn_key, mh.key) or any(mn.dominates(c.bb, bb) and c.bb != bb for c in via)
             ck.ob(R, "merge_node:tail@%s" % payload.name, ok, mn.loc(payload.sp), "" if ok else "merge_node returns the result of %s" % payload.callee, how="returns merge_node/merge_here(..)")
         else:
             ok = kind == "Ok" and any(mn.dominates(c.bb, bb) for c in via)
